@@ -449,6 +449,26 @@ def case_heads(t):
             raise Violation("lcb-closed-form", f"{ctx}: compute_acq {got!r}, mean - kappa std = {want!r}")
     elif got > 0:
         raise Violation(f"{which}-negative", f"{ctx}: x={x.tolist()}: minus acquisition value {got!r} > 0")
+    # a call with an overriding predictor uses that predictor's incumbent and leaves the object's own results unchanged
+    if which != "lcb" and t.chance(1, 3):
+        shift = t.choice([0.5, -0.5, 2.0]) * s
+        pB = Stub("target", x0, m, G, c, s, q, best + shift, cand_means + shift, flat if which != "cei" else False)
+        if which == "ei":
+            over = pB
+        elif which == "eipu":
+            over = {"target": pB, "cost": p2}
+        else:
+            over = {"target": pB, "constraint": p2}
+        v_over = float(np.array(acq.compute_acq(x.reshape(1, -1), predictor=over)).reshape(-1)[0])
+        if which == "ei":
+            want_over = _ei_closed_form(mean_x, std_x, best + shift, jitter)
+            if abs(v_over - want_over) > 1e-9 * abs(want_over) + 1e-300:
+                raise Violation("ei-closed-form:override-predictor", f"{ctx}: x={x.tolist()}: compute_acq(predictor=B) {v_over!r}, closed form with B's incumbent {want_over!r}")
+        v_own = float(np.array(acq.compute_acq(x.reshape(1, -1))).reshape(-1)[0])
+        fv2, _ = acq.compute_acq_with_gradient(x.copy())
+        if abs(v_own - got) > 1e-12 * abs(got) + 1e-300 or abs(float(fv2) - got) > 1e-9 * abs(got) + 1e-300:
+            raise Violation(f"acq-value-changes-after-override:{which}", f"{ctx}: x={x.tolist()}: value {got!r} before, {v_own!r} / {float(fv2)!r} after a call with predictor=B (incumbent shifted by {shift})")
+        labels.add("override-predictor")
     if np.max(np.abs(us)) >= 8:
         labels.add("extreme-u")
     labels.add("conclusive" if n_ok else "all-inconclusive")
@@ -459,5 +479,5 @@ def case_heads(t):
 SUBCHECKS = {
     "fit": {"fn": case_fit, "quick": 3200, "thorough": 80000, "required": ["boxcox", "positive", "warped-2", "expdecay", "product", "conclusive"]},
     "acq-gp": {"fn": case_acq_gp, "quick": 3200, "thorough": 80000, "required": ACQS + ["fantasies>1", "secondary-without-fantasies", "conclusive"]},
-    "heads": {"fn": case_heads, "quick": 16000, "thorough": 400000, "required": ACQS + ["extreme-u", "no-feasible-candidate", "non-positive-cost", "conclusive"]},
+    "heads": {"fn": case_heads, "quick": 16000, "thorough": 400000, "required": ACQS + ["extreme-u", "no-feasible-candidate", "non-positive-cost", "conclusive", "override-predictor"]},
 }
